@@ -202,6 +202,21 @@ static void request_timeout_handler(void *context, bool cancelled)
 	cjet_free(request);
 }
 
+/**
+ * Takes back what setup_routing_information() did for a request that could
+ * not be delivered to the owner. The request is destroyed.
+ */
+void cancel_routing_request(const struct peer *owner_peer, struct routing_request *request)
+{
+	HASHTABLE_REMOVE(route_table, owner_peer->routing_table, request->id, NULL);
+	if (unlikely(request->timer.cancel(&request->timer) < 0)) {
+		log_peer_err(request->requesting_peer, "Could not cancel request timer!\n");
+	}
+	cjet_timer_destroy(&request->timer);
+	cJSON_Delete(request->origin_request_id);
+	cjet_free(request);
+}
+
 int setup_routing_information(struct element *e, const cJSON *request, const cJSON *timeout, struct routing_request *routing_request, cJSON **response)
 {
 	uint64_t timeout_ns = get_timeout_in_nsec(routing_request->requesting_peer, request, timeout, response, e->timeout_nsec);
